@@ -124,3 +124,12 @@ Theorem C12_into_iter_clone_is_deep_and_independent :
     (fun s' => nth_error (heap s') b = Some bl).
 Proof. exact into_clone_spec. Qed.
 Print Assumptions C12_into_iter_clone_is_deep_and_independent.
+
+(* the premise of the translator tie EquivClone.clone_equiv is met wherever the clone theorem applies: on a
+   well-formed vector (no panicking Clone) the body's loop never runs out of the machine's fuel *)
+Theorem C12_clone_body_never_runs_out_of_fuel :
+  forall cfg ncap, cfg_ok cfg -> policy_ok ncap -> needs_drop cfg = true ->
+  forall s v l, vabs cfg s v l -> (forall e, In e l -> mem e (clone_panics s) = false) ->
+  fst (clone_body cfg ncap v s) <> OutOfFuel.
+Proof. exact clone_body_fuel. Qed.
+Print Assumptions C12_clone_body_never_runs_out_of_fuel.
